@@ -249,13 +249,17 @@ class AwaitCtl:
         if con is not None and not con.inline and coro.qualname != I.current_target and coro.pyfunc is not None:
             from . import modular
 
+            modular.announce_call(I, con, coro.args, coro.kwargs)
             self.suspend(I, coro.qualname)
             try:
                 self.maybe_interrupted(I, coro.qualname)
             except _Interrupt as it:
                 raise PyRaise(it.exc)
-            r = modular.apply_contract(I, con, coro.pyfunc, coro.args, coro.kwargs, coro.bound_self)
-            _log(I.ctx, {"kind": coro.qualname, "outcome": "return"})
+            r = modular.apply_contract(I, con, coro.pyfunc, coro.args, coro.kwargs, coro.bound_self, announced=True)
+            from .interp import UnpackableResult
+
+            _log(I.ctx, {"kind": coro.qualname, "outcome": "return",
+                         "value_sym": list(r.items) if isinstance(r, UnpackableResult) else r})
             return r
         # no contract (or inline): the callee's body runs in place; its awaits come back here
         return coro.runner(I)
